@@ -23,7 +23,7 @@ RULE = ("parametrised formula families F(operator, sharing pattern, n): full sha
         "non-trivial = tree/DAG ratio >= 2^20 or depth >= 20000; distinct by (family, operation, n)")
 
 
-class Budget(Exception):
+class Budget(BaseException):
     pass
 
 
@@ -193,6 +193,27 @@ def families(env):
             return mgr.Iff(mgr.Not(a), b)
         return grow(bl, n, pattern, op2, lambda t, i: mgr.Implies(t, bl[i % 5]))
     F["with-rejected-constructions"] = with_rejections
+    # ... over string operators and array values (the message of the rejection prints the offending term)
+    def with_rejections_str(n, pattern):
+        def op2(a, b):
+            try:
+                mgr.Plus(mgr.StrLength(a), mgr.Real(1))
+            except Exception:
+                pass
+            return mgr.StrConcat(a, b)
+        t = grow(sl, n, pattern, op2, lambda t, i: mgr.StrReplace(t, sl[i % 5], sl[(i + 1) % 5]))
+        return mgr.Equals(t, sl[1])
+    F["with-rejected-constructions-str"] = with_rejections_str
+    def with_rejections_arr(n, pattern):
+        def op2(a, b):
+            try:
+                mgr.Array(I, a, {mgr.Int(1): mgr.Real(2)})      # ill-typed array value
+            except Exception:
+                pass
+            return mgr.Minus(mgr.Plus(a, one), b)
+        t = grow(il, n, pattern, op2, lambda t, i: mgr.Plus(t, one))
+        return mgr.LE(t, il[1])
+    F["with-rejected-constructions-arr"] = with_rejections_arr
     # every operator with two or more term arguments, nested directly in itself: t' = op(t, op(t, leaf)).
     # (an operator whose printed form is not named by a let makes the text follow the tree; these are measured on the
     #  operations that do not rewrite -- simplify flattens / folds several of them by design)
@@ -445,7 +466,8 @@ def job(items):
 FAMS = ["and", "or", "implies", "iff", "not-and", "ite-bool-cond", "ite-bool-then", "ite-bool-else", "plus-minus",
         "times-ite", "ite-int-then", "ite-int-else", "bvadd", "bvxor-neg", "bvmul-lshr", "bv-ite-then", "bv-ite-both", "bv-ite-direct", "bv-ite-tower", "int-ite-tower",
         "bvextract-concat", "store-select", "times-div", "select-const-store", "uf-apply", "str-concat-replace",
-        "toreal-consts", "bv-rot-ext-comp", "and-direct", "or-direct", "div-by-zero", "str-ops-only", "bv-ite-observed", "int-div", "with-rejected-constructions"]
+        "toreal-consts", "bv-rot-ext-comp", "and-direct", "or-direct", "div-by-zero", "str-ops-only", "bv-ite-observed", "int-div", "with-rejected-constructions",
+        "with-rejected-constructions-str", "with-rejected-constructions-arr"]
 
 
 def main():
